@@ -298,6 +298,7 @@ class World(object):
         self._archived_finished = []
         self.scheduled = set()
         self.base_world = None
+        self.reader_sorted = False
         self.base = None
         self.base_hist = None
 
@@ -309,6 +310,8 @@ class World(object):
 
     def _order(self, path, names):
         seed = self.case.get('order_seed', 0)
+        if self.reader_sorted and path == z.TRACE_HISTORY:
+            return names
 
         def key(name):
             raw = ('%d|%s|%s' % (seed, path, name)).encode()
@@ -501,7 +504,7 @@ class World(object):
         """Rows of events archived long ago (no longer live)."""
         rows = []
         for idx in range(count):
-            micros = (NOW - 20 * 24 * 3600) * 1000000 + salt * 1000 + idx
+            micros = (NOW - 40 * 24 * 3600) * 1000000 + salt * 1000 + idx
             if fam == 'trace':
                 specs = self.case['instances']
                 if specs:
@@ -559,14 +562,16 @@ class World(object):
             for _ in range(spec.get('gap', 0)):
                 gone = zkutils.create(adm, node, b'', sequence=True)
                 adm.delete(gone)
-            cands = self._leftover_candidates(fam)
+            # what an interrupted earlier run left both live and uploaded:
+            # the OLDEST archivable records (batches are cut oldest first),
+            # in the newest snapshot
+            cands = sorted(self._leftover_candidates(fam),
+                           key=lambda row: (row[1], row[0]))
+            last = len(spec['snaps']) - 1
             for sidx, snap in enumerate(spec['snaps']):
                 rows = self._old_rows(fam, snap['old'], sidx)
-                for pick in snap['dup']:
-                    if cands:
-                        row = cands[pick % len(cands)]
-                        if row not in rows:
-                            rows.append(row)
+                if sidx == last:
+                    rows.extend(cands[:len(snap['dup'])])
                 if not rows:
                     rows = self._old_rows(fam, 1, sidx)
                 zkutils.create(adm, node, build_snapshot(meta['table'], rows),
@@ -769,6 +774,80 @@ class World(object):
                     changed = ('changed', data)
         return changed
 
+    def read_trace(self, inst, sorted_listing=True):
+        """What `treadmill admin trace --snapshot <inst>` shows: the real
+        AppTraceLoop on the fake ZooKeeper with a recording handler. Returns
+        [(timestamp, source, instanceid, event_type, event_data)]."""
+        delivered = []
+
+        class _Recorder(object):
+            def process(self, event, ctx=None):
+                delivered.append(tuple(event.to_data()[:5]))
+
+        real_download = _zk.download_batch
+        cache = self.cache
+
+        def _memo_download(zkclient, db_node_path, table, name):
+            # download_batch is a pure function of the blob: same result,
+            # without decompressing the same snapshot hundreds of times
+            blob = zkclient.tree.nodes[db_node_path].data
+            key = ('dl', blob, table, name)
+            if key not in cache:
+                cache[key] = list(real_download(zkclient, db_node_path,
+                                                table, name))
+            return list(cache[key])
+
+        def _no_exit(code):
+            raise AssertionError('the reader called sys_exit(%r)' % code)
+
+        from treadmill import utils
+        saved_exit = utils.sys_exit
+        utils.sys_exit = _no_exit
+        _zk.download_batch = _memo_download
+        self.reader_sorted = sorted_listing
+        try:
+            loop = app_zk.AppTraceLoop(self.admin, inst, _Recorder())
+            loop.run(snapshot=True)
+        finally:
+            self.reader_sorted = False
+            _zk.download_batch = real_download
+            utils.sys_exit = saved_exit
+        return delivered
+
+    def _expected_delivery(self, inst):
+        """Live events of the instance plus the rows of the surviving
+        snapshots, each once, as the 5-tuples the handler sees."""
+        nodes = self.tree.nodes
+        names = set()
+        shard = z.path.trace(inst)
+        if shard in nodes:
+            names.update(name for name in nodes[shard].children
+                         if name.startswith(inst + ','))
+        hist = z.TRACE_HISTORY
+        for node_name in nodes[hist].children:
+            blob = nodes[hist + '/' + node_name].data
+            names.update(row[0] for row in self._opened('trace', blob)
+                         if row[0].startswith(inst + ','))
+        want = []
+        for name in sorted(names):
+            obj, stamp, src, etype, edata = name.split(',')
+            want.append((float(stamp), src, obj, etype, edata))
+        return want
+
+    def gap_instances(self):
+        """Unscheduled instances whose archived events sit on both sides of
+        a surviving snapshot that holds none of them."""
+        nodes = self.tree.nodes
+        hist = z.TRACE_HISTORY
+        snaps = sorted(nodes[hist].children)
+        where = {}
+        for idx, node_name in enumerate(snaps):
+            blob = nodes[hist + '/' + node_name].data
+            for row in self._opened('trace', blob):
+                where.setdefault(row[0].split(',', 1)[0], set()).add(idx)
+        return [inst for inst, idxs in sorted(where.items())
+                if len(idxs) < max(idxs) - min(idxs) + 1]
+
     def check(self, stage, clean, stats=None):
         """Raise Violation if the state breaks C18. stage: clean | crash |
         zkerror | recovery (goes into the bucket: the root causes differ)."""
@@ -847,6 +926,35 @@ class World(object):
                     'expires_after=%s' % (stage, rec['path'],
                                           now - rec['mtime'],
                                           par['finished_expire']))
+
+        # 2b. the product's own reader delivers the union of live and
+        #     archived events of every unscheduled instance
+        summary['reader_runs'] = 0
+        summary['reader_duplicates'] = 0
+        for inst in sorted(set(evt['object']
+                               for evt in self.events['trace'])):
+            if inst in self.scheduled:
+                continue        # the reader skips the history while scheduled
+            want = self._expected_delivery(inst)
+            got = self.read_trace(inst)
+            summary['reader_runs'] += 1
+            missing = [item for item in want if item not in got]
+            if missing:
+                raise Violation(
+                    'c18.reader.event-not-delivered.%s' % stage,
+                    '%s run: AppTraceLoop(%s).run(snapshot=True) delivered '
+                    '%d of %d events; not delivered: %r (live or a row of a '
+                    'snapshot in %r)' % (
+                        stage, inst, len(set(got) & set(want)), len(want),
+                        missing[:3],
+                        sorted(nodes[z.TRACE_HISTORY].children)))
+            extra = [item for item in got if item not in want]
+            if extra:
+                raise Violation(
+                    'c18.reader.foreign-event-delivered.%s' % stage,
+                    '%s run: AppTraceLoop(%s) delivered %r which is neither '
+                    'live nor archived for it' % (stage, inst, extra[:3]))
+            summary['reader_duplicates'] += len(got) - len(set(got))
 
         # 3. after a complete run the survivors are the newest max_count
         if clean:
